@@ -717,6 +717,27 @@ Definition chain_cmd (st : dstate) (cmd : tok) (args : list tok) : option (dstat
         end
     | _ => Some (st, bad)
     end
+  else if tok_is cmd "VB" then
+    (* stateless validation of one message, outside any transaction *)
+    match (match did_msg_of_toks st args with
+           | Some m => Some m
+           | None => match pnft_msg_of_toks args with Some m => Some m | None => base_msg_of_toks2 args end
+           end) with
+    | Some m =>
+        Some (st, [match vb_base (env_of st) m with
+                   | Ok _ => b "V ok"
+                   | Err cs code => join_toks [b "V"; b "err"; cs; print_dec code]
+                   | Panic => b "V panic"
+                   end;
+                   match vb_base (env_of st) m with
+                   | Ok _ => match signers_base (env_of st) m with
+                             | Ok l => join_toks [b "S"; b "ok"; join_with ","%byte (map tok_of_bytes l)]
+                             | _ => b "S panic"
+                             end
+                   | _ => b "S skipped"
+                   end])
+    | None => Some (st, bad)
+    end
   else if tok_is cmd "EXPORTIMPORT" then
     match export_import (bech_of st) (unbech_of st) (d_chain st) with
     | Ok c' => Some (upd_chain st c', [b "X ok"])
